@@ -632,6 +632,148 @@ func (x *extractor) identPass(list []*node, st identState) []*node {
 	return out
 }
 
+// recodeOnly reports whether n only recodes scalars (possibly in loops over
+// the terms and under length guards).
+func recodeOnly(n *node) bool {
+	switch n.kind {
+	case "recode":
+		return true
+	case "loop", "if":
+		if len(n.body)+len(n.els) == 0 {
+			return false
+		}
+		for _, b := range n.body {
+			if !recodeOnly(b) {
+				return false
+			}
+		}
+		for _, b := range n.els {
+			if !recodeOnly(b) {
+				return false
+			}
+		}
+		return true
+	}
+	return false
+}
+
+// mentionsAcc reports whether n reads or writes the location root / the
+// accumulator acc.
+func mentionsAcc(n *node, root, acc types.Object) bool {
+	for _, p := range []*place{n.dst, n.a, n.b, n.final} {
+		if p != nil && (p.root == root || p.root == acc) {
+			return true
+		}
+	}
+	for _, a := range []types.Object{n.dstAcc, n.aAcc, n.bAcc} {
+		if a != nil && (a == acc || a == root) {
+			return true
+		}
+	}
+	if n.kind == "call" || n.kind == "other" || n.kind == "ret-table" || n.kind == "badloop" || n.kind == "unsupported" {
+		return true // opaque: may do anything
+	}
+	for _, b := range n.body {
+		if mentionsAcc(b, root, acc) {
+			return true
+		}
+	}
+	for _, b := range n.els {
+		if mentionsAcc(b, root, acc) {
+			return true
+		}
+	}
+	return false
+}
+
+// floatIndependent moves, inside every statement list, the events whose
+// position relative to their neighbours is unobservable to a canonical place:
+//
+//   - a recoding reads a SCALAR and writes a fresh digit array: it can alias
+//     neither a point nor a table, so its order relative to group operations and
+//     table constructions is irrelevant.  Recodings (and loops / length guards
+//     of nothing but recodings) move to the front of their list, keeping their
+//     relative order (sortDecls then orders them).  An opaque call is never
+//     crossed (it may write a scalar).
+//   - `X.Identity()` on a FRESH LOCAL X (a point variable declared by value in
+//     this function, not a parameter, not reached through a pointer): nothing
+//     else can denote X, so the reset may float anywhere before the first use of
+//     X; it is moved down to just before the first event that mentions X.
+//
+// What is NOT moved: the reset of an accumulator that is a parameter or is
+// reached through a pointer (it may alias a point operand) relative to table
+// constructions and other reads of points — `out.Identity()` before the tables
+// of the input points are built is a different program when out is one of them.
+func (x *extractor) floatIndependent(list []*node) []*node {
+	var work []*node
+	for _, n := range list {
+		if len(n.body)+len(n.els) > 0 {
+			m := *n
+			m.body, m.els = x.floatIndependent(n.body), x.floatIndependent(n.els)
+			n = &m
+		}
+		work = append(work, n)
+	}
+	// 1. recodings to the front (not across an opaque call)
+	var out []*node
+	seg := 0 // start of the current call-free segment in out
+	for _, n := range work {
+		switch {
+		case n.kind == "call" || n.kind == "other" || n.kind == "unsupported" || n.kind == "badloop":
+			out = append(out, n)
+			seg = len(out)
+		case recodeOnly(n):
+			// insert after the recodings already at the front of the segment
+			k := seg
+			for k < len(out) && recodeOnly(out[k]) {
+				k++
+			}
+			out = append(out, nil)
+			copy(out[k+1:], out[k:])
+			out[k] = n
+		default:
+			out = append(out, n)
+		}
+	}
+	// 2. resets of fresh locals sink to their first use
+	for i := len(out) - 1; i >= 0; i-- {
+		n := out[i]
+		if n.kind != "I" || n.dst == nil || n.dst.elem || !x.freshLocal(n.dst.root) {
+			continue
+		}
+		k := i
+		for k+1 < len(out) && !mentionsAcc(out[k+1], n.dst.root, n.dstAcc) {
+			out[k] = out[k+1]
+			k++
+		}
+		out[k] = n
+	}
+	return out
+}
+
+// freshLocal reports whether o is a point variable declared BY VALUE inside
+// the function (not a parameter, not a pointer, not a range variable): no
+// other expression of the function can denote it.
+func (x *extractor) freshLocal(o types.Object) bool {
+	if o == nil || !isLocalObj(o) {
+		return false
+	}
+	if _, isParam := x.params[o]; isParam {
+		return false
+	}
+	if _, aliased := x.alias[o]; aliased {
+		return false
+	}
+	if _, isPtr := o.Type().(*types.Pointer); isPtr {
+		return false
+	}
+	if _, ranged := x.locRole[o]; ranged && strings.HasPrefix(x.locRole[o], "each(") {
+		return false
+	}
+	// declared in this function's body (helpers' parameters are excluded above by alias / type)
+	return x.kn.isPointType(o.Type()) && o.Pos() >= x.decl.Body.Pos() && o.Pos() <= x.decl.Body.End()
+}
+
 // sortDecls orders every run of adjacent declarations (recodings, table
 // constructions, and loops / length guards that contain nothing else): they
 // read scalars and points, write only fresh locals, and so commute with each
@@ -679,6 +821,7 @@ func (sk *Skeleton) normalize() {
 		return
 	}
 	n := x.simplify(sk.raw, false)
+	n = x.floatIndependent(n)
 	n = x.sortDecls(n)
 	n = x.mergeD(n)
 	n = x.identPass(n, identState{})
